@@ -62,7 +62,7 @@ NATIVE['n_libfunc_sweep'] = dict(
     crate='cairo-lang-sierra-to-casm',
     host='crates/cairo-lang-sierra-to-casm/src/compiler.rs',
     harness='native/cairo-lang-sierra-to-casm/n_libfunc_sweep.rs',
-    props={'C14', 'C04', 'C17'},
+    props={'C14', 'C04', 'C17', 'C15'},
     bound='every generic libfunc id x generic-argument lists of length 0..=2 over the boundary universe; each accepted declaration compiled as a '
           'one-invocation program; per-branch declared ap change / cost vs every path of the emitted instructions',
     functions=[('crates/cairo-lang-sierra-to-casm/src/compiler.rs', None, 'compile'),
